@@ -573,6 +573,92 @@ fn backpressure_session(rng: &mut Rng, cfg: Cfg, overflow: bool) -> Script {
     sc
 }
 
+/// `poll_close` of a substream that HOLDS BUFFERED FRAMES while the write side is stalled: the sink
+/// is filled to its high-water mark over a blocked connection, so `poll_close_stream` (or the flush
+/// after it) returns `Pending`; later the connection unblocks, the close completes and the
+/// substream is read to the end.  Every buffered byte must still be there.
+///   variant 0: Open -> SendClosed, frames buffered through reads on another substream
+///   variant 1: RecvClosed -> Closed (the remote's Close is already processed)
+///   variant 2: the closed substream is the one whose full buffer blocks all reading (Block mode)
+///   variant 3: frames buffered through `poll_inbound`; close itself succeeds, the flush is Pending
+fn close_pending_session(rng: &mut Rng, cfg: Cfg, variant: u32) -> Script {
+    let mut sc = Script::new(cfg);
+    let mut bytes = enc(Kind::Open, 0, true, &[]);
+    bytes.extend(enc(Kind::Open, 1, true, &[]));
+    sc.wire(&bytes, 0);
+    sc.op("inbound".into());
+    sc.op("inbound".into());
+    sc.op("outbound".into()); // 0:d, used to fill the sink
+    // k frames for substream 0 (A), then one for substream 1 (B)
+    let k = match variant {
+        2 => cfg.mb + 1,
+        _ => 1 + rng.usize(cfg.mb.max(1)),
+    };
+    let mut bytes = vec![];
+    for j in 0..k {
+        bytes.extend(enc(Kind::Data, 0, true, &[0xA0 + j as u8, rng.next_u64() as u8, j as u8]));
+    }
+    if variant == 1 {
+        bytes.extend(enc(Kind::Close, 0, true, &[]));
+    }
+    bytes.extend(enc(Kind::Data, 1, true, &[0xB1, 0xB2]));
+    if variant == 3 {
+        bytes.extend(enc(Kind::Open, 2, true, &[]));
+    }
+    sc.wire(&bytes, 0);
+    // buffer A's frames by polling something else
+    if variant == 3 {
+        for _ in 0..k + 2 {
+            if sc.op("inbound".into()).starts_with("sid:") {
+                break;
+            }
+        }
+    } else {
+        for _ in 0..k + 2 {
+            if sc.op("read 1:l 8".into()).starts_with("data:") {
+                break;
+            }
+        }
+    }
+    // stall the write side
+    sc.op("wblock 1".into());
+    if variant == 3 {
+        sc.op("write 0:d 0102".into()); // sink below the high-water mark: close succeeds, flush stalls
+    } else {
+        let big = 131072 + rng.usize(3);
+        sc.op(format!("write 0:d r41x{big}"));
+    }
+    sc.op("close 0:l".into()); // Pending
+    if rng.bool() {
+        sc.op("flush 1:l".into()); // Pending as well
+    }
+    if rng.bool() {
+        sc.op("close 0:l".into()); // still Pending
+    }
+    if rng.chance(1, 3) {
+        sc.op("read 0:l 2".into()); // a read in between
+    }
+    if rng.chance(1, 3) {
+        sc.op("inbound".into());
+    }
+    sc.op("wblock 0".into());
+    sc.op("close 0:l".into()); // Ready
+    // the remote finishes A as well, then A is read to the end
+    if variant != 1 {
+        sc.wire(&enc(Kind::Data, 0, true, &[0xEE]), 0);
+        sc.wire(&enc(Kind::Close, 0, true, &[]), 0);
+    }
+    for _ in 0..3 * (k + 3) {
+        let n = 1 + rng.usize(4);
+        let r = sc.op(format!("read 0:l {n}"));
+        if r.starts_with("eof") || r.starts_with("err") {
+            break;
+        }
+    }
+    sc.op("read 1:l 8".into());
+    sc
+}
+
 pub fn run(args: &Args, out: &mut Out) {
     if let Some(cases) = args.replay_cases() {
         for (i, (hdr, ops)) in cases.iter().enumerate() {
@@ -674,6 +760,18 @@ pub fn generate(args: &Args, out: &mut Out, idx: &mut u64, prefix: &str, quick: 
         let depth = if args.thorough { 5 } else { 4 };
         for block in [true, false] {
             exhaustive(out, idx, prefix, Cfg { ms: 1, mb: 1, block, split: 8 }, depth);
+        }
+    }
+    for variant in 0..4u32 {
+        for mb in 1..=3usize {
+            for block in [true, false] {
+                for rep in 0..args.n(3, 40) {
+                    let mut rng = Rng::for_case(args.seed ^ salt, 40_000_000 + (variant as u64) * 1000 + (mb as u64) * 100 + rep * 2 + block as u64);
+                    let cfg = Cfg { ms: 4, mb, block, split: 1 << 20 };
+                    close_pending_session(&mut rng, cfg, variant).emit_with(out, *idx, "close-pending", prefix);
+                    *idx += 1;
+                }
+            }
         }
     }
     let n = args.n(quick, thorough);
